@@ -140,6 +140,28 @@ func genC16(ctx *Ctx) []Case {
 		[]c16Row{{1, 10}, {2, 20}, {4, 40}},
 		[][]c16Row{{{1, 11}, {2, 20}, {4, 40}}, {{1, 12}, {3, 30}, {4, 40}}}, xt.Ints([]int{1, 0, 1, 1}))})
 
+	// ---- varying-length keys in the second column, many blocks, 4 / 8 / 16 requested workers:
+	// per-worker scratch state (decoder, hash, StrListEditor) must not be shared between workers
+	nvar, vreps := 1, 3
+	if ctx.Thorough() {
+		nvar = 10
+	}
+	for i := 0; i < nvar; i++ {
+		for _, req := range []int{4, 8, 16} {
+			nb := 60
+			if i > 0 {
+				nb = 40 + ctx.Pick(81)
+			}
+			g := c16IngestCase{w: req - 2, rows: c16Rows(nb, 1+ctx.Pick(255)), sched: c16Sched(ctx, req-2, 300), reps: vreps,
+				procs: []int{16, 8, 4}, yieldPct: 10, sleepUs: 5, seed: 7000 + 10*i + req}
+			t := g.tree(lock)
+			t.Kids[0] = xt.LI(7)
+			cases = append(cases, Case{Tag: "varkey", Nontrivial: true, C: t})
+			ctx.Count("varkey_cases")
+			ctx.Count("varkey_repetitions_per_case_" + string(rune('0'+vreps)))
+		}
+	}
+
 	// ---- exhaustive small scope: workers x blocks x size of the last block
 	maxW, maxB := 4, 4
 	if ctx.Thorough() {
